@@ -1703,8 +1703,8 @@ class Element(Mapping[str, Attribute]):
                 used_strings.add(elem.type)
             if version >= 4:
                 used_strings.add(elem.name)
-            for attr in elem.values():
-                if attr.name == 'name':
+            for attr_key, attr in elem._members.items():
+                if attr_key == 'name':
                     # Has its own special slot.
                     continue
                 if stringdb_ind is not None:
@@ -1749,8 +1749,8 @@ class Element(Mapping[str, Attribute]):
             if 'name' in elem._members:
                 attr_count -= 1
             file.write(pack('<i', attr_count))
-            for attr in elem.values():
-                if attr.name == 'name':
+            for attr_key, attr in elem._members.items():
+                if attr_key == 'name':
                     continue
                 if stringdb_ind is not None:
                     file.write(pack(stringdb_ind, string_to_ind[attr.name]))
